@@ -61,8 +61,14 @@ THEOREMS = [
     "Jinns.SolveFamily.holdsC19_model_vl",
     "Jinns.SolveFamily.vlOutcomes_improved",
     "Jinns.SolveFamily.holdsC19VL_model_partial",
+    "Jinns.SolveFamily.derImp_eq_model",
+    "Jinns.SolveFamily.vl_counter_trailingFalse",
+    "Jinns.SolveFamily.vlOutcomes_eq_model",
+    "Jinns.SolveFamily.holdsC19VL_model_gen",
+    "Jinns.SolveFamily.holdsC19VL_model_driver",
+    "Jinns.SolveFamily.holdsC19VL_model",
 ]
-LEAN_MODULES = ["JinnsProofs.C19", "JinnsProofs.C19Holds"]
+LEAN_MODULES = ["JinnsProofs.C19", "JinnsProofs.C19Holds", "JinnsProofs.C19VL"]
 RULE = ("(a) case = (period c in 1..4, script length L, chunk of scripts); every script over the 6 outcomes "
         "{improve, same, worse} x {stop, continue} of length <= 5 (quick) / <= 7 (thorough) is run on the real solve "
         "with n = c*L + 1 (one more invocation than the script length is possible); the model and Holds.C19 are "
